@@ -210,4 +210,26 @@ pub(crate) mod b {
         }
         println!("BOUNDED-CASES {}", n);
     }
+
+    /// C01: the asserts / expects inside the lazily built tables do not depend on the input: one
+    /// forced initialisation of every table decides them
+    #[test]
+    fn bounded_lazy_tables_init() {
+        let n = crate::map::ASCII_PROPERTIES.len()
+            + crate::map::UNICODE_FRAGMENTS.len()
+            + crate::map::FRAGMENTS_UNICODE.len()
+            + crate::map::UNICODE_PROPERTIES.len()
+            + CIRCLE_MAP.len()
+            + FRAGMENTS_CIRCLE.len()
+            + DIAMETER_CIRCLE.len()
+            + CIRCLES_SPAN.len()
+            + QUARTER_ARC_SPAN.len()
+            + HALF_ARC_SPAN.len()
+            + THREE_QUARTERS_ARC_SPAN.len()
+            + FLATTENED_QUARTER_ARC_SPAN.len()
+            + FLATTENED_HALF_ARC_SPAN.len()
+            + FLATTENED_THREE_QUARTERS_ARC_SPAN.len();
+        assert!(n > 100, "tables are populated");
+        println!("BOUNDED-CASES {}", n);
+    }
 }
